@@ -142,6 +142,22 @@ func ruleAccounting(p *Program, r *Result) {
 			r.ok("R-PROVENANCE", k, p.Pos(rs.Call.Pos()), false, "accounting reply with status %v (not SUCCESS)", rs.Status)
 			continue
 		}
+		// SUCCESS: only for a flag octet that is, as a whole, one of the combinations the handler names (a bit test
+		// lets contradictory combinations - start+stop, a stray bit - through)
+		{
+			// where SUCCESS comes from: the reply's own block, or - when the status is a merge of alternatives - the
+			// predecessor blocks of the alternatives that may be SUCCESS
+			origins := successOrigins(p, rs, success)
+			exact := len(origins) > 0
+			for _, o := range origins {
+				if !underWholeFlagsEquality(o.blk, o.into, modPath) {
+					exact = false
+				}
+			}
+			r.cond(exact, "R-ORDER", k+":flags-compared-whole", p.Pos(rs.Call.Pos()),
+				"the SUCCESS reply is under an equality test of the request's whole flag octet with a constant: contradictory or unknown combinations cannot reach it",
+				"the SUCCESS reply is not under 'Flags == <constant>' for the decoded request's whole flag octet: a request carrying contradictory flags (start+stop, a legal flag plus a stray bit) can be acknowledged")
+		}
 		// SUCCESS: must be dominated by exactly one sink write of the JSON of the decoded request
 		fn := rs.Fn
 		decs := decodeCalls(fn, "AcctRequest")
@@ -373,3 +389,106 @@ func ruleJSONFaithful(p *Program, r *Result, structName string) {
 }
 
 var _ = strings.Contains
+
+type originEdge struct {
+	blk  *ssa.BasicBlock // the block the SUCCESS value comes from
+	into *ssa.BasicBlock // for a merged alternative: the merge block (nil for the reply's own block)
+}
+
+// successOrigins: the places a reply's SUCCESS status comes from.
+func successOrigins(p *Program, rs ReplySite, success int64) []originEdge {
+	var out []originEdge
+	vals := rs.Options["SetAcctReplyStatus"]
+	if len(vals) == 0 {
+		return []originEdge{{blk: rs.Call.Block()}}
+	}
+	seen := map[ssa.Value]bool{}
+	var walk func(v ssa.Value, at originEdge)
+	walk = func(v ssa.Value, at originEdge) {
+		v = stripConv(v)
+		if seen[v] {
+			return
+		}
+		seen[v] = true
+		if phi, ok := v.(*ssa.Phi); ok {
+			for i, e := range phi.Edges {
+				cs := map[int64]bool{}
+				if constSources(p, e, 6, cs) && !cs[success] {
+					continue
+				}
+				walk(e, originEdge{blk: phi.Block().Preds[i], into: phi.Block()})
+			}
+			return
+		}
+		out = append(out, at)
+	}
+	for _, v := range vals {
+		walk(v, originEdge{blk: rs.Call.Block()})
+	}
+	return out
+}
+
+// underWholeFlagsEquality: is the block (or the edge blk->into) only reached when 'body.Flags == <const>' held for the
+// decoded accounting request?
+func underWholeFlagsEquality(blk, into *ssa.BasicBlock, modPath string) bool {
+	// isTest: does the block end in a test of the whole flag octet, and which successor is taken when it matched?
+	isFlags := func(v ssa.Value) bool {
+		if f, base, ok := loadedField(v); ok && f.Name() == "Flags" {
+			if a, ok := base.(*ssa.Alloc); ok && typeIs(a.Type(), modPath, "AcctRequest") {
+				return true
+			}
+		}
+		return false
+	}
+	isTest := func(id *ssa.BasicBlock) (int, bool) {
+		iff, ok := id.Instrs[len(id.Instrs)-1].(*ssa.If)
+		if !ok {
+			return 0, false
+		}
+		cond, yes := iff.Cond, 0
+		for {
+			u, ok := cond.(*ssa.UnOp)
+			if !ok || u.Op != token.NOT {
+				break
+			}
+			cond, yes = u.X, 1-yes
+		}
+		switch x := cond.(type) {
+		case *ssa.BinOp:
+			if x.Op == token.NEQ {
+				yes = 1 - yes
+			} else if x.Op != token.EQL {
+				return 0, false
+			}
+			if _, isC := constInt(x.Y); isC && isFlags(x.X) {
+				return yes, true
+			}
+		case *ssa.Extract:
+			// 'v, known := table[body.Flags]' over a package-level table: the whole octet is compared with the keys
+			if lk, ok := x.Tuple.(*ssa.Lookup); ok && lk.CommaOk && x.Index == 1 && isFlags(lk.Index) {
+				if _, isMap := lk.X.Type().Underlying().(*types.Map); isMap {
+					return yes, true
+				}
+			}
+		}
+		return 0, false
+	}
+	if into != nil {
+		if yes, ok := isTest(blk); ok && blk.Succs[yes] == into && blk.Succs[1-yes] != into {
+			return true
+		}
+	}
+	for d := blk; d != nil; d = d.Idom() {
+		id := d.Idom()
+		if id == nil {
+			break
+		}
+		if yes, ok := isTest(id); ok {
+			y, n := id.Succs[yes], id.Succs[1-yes]
+			if (y == d || y.Dominates(d)) && n != d && !n.Dominates(d) {
+				return true
+			}
+		}
+	}
+	return false
+}
